@@ -101,10 +101,24 @@ func decodeEqG(g value.Value) (eq bool, ok bool) {
 	o := vh.Guard(func() {
 		out := gio.NewDataOutputX()
 		value.WriteValue(out, g)
-		d := value.ReadValue(gio.NewDataInputX(out.ToByteArray()))
-		eq = g.Equals(d) && d.Equals(g)
+		raw := out.ToByteArray()
+		exact := make([]byte, len(raw)) // len == cap: nothing at all behind the value
+		copy(exact, raw)
+		d := value.ReadValue(gio.NewDataInputX(exact))
+		d2 := value.ReadValue(gio.NewDataInputX(raw))
+		eq = g.Equals(d) && d.Equals(g) && d2.Equals(g)
+		if eq && !cmpSelfQuirk(g) && (g.CompareTo(d) != 0 || d.CompareTo(g) != 0) {
+			eq = false
+		}
 	})
 	return eq, o.OK()
+}
+
+// cmpSelfQuirk: CompareTo(self) is not 0 for values holding a NaN (known findings); the decode law then checks Equals only
+func cmpSelfQuirk(g value.Value) bool {
+	r := false
+	vh.Guard(func() { r = g.CompareTo(g) != 0 })
+	return r
 }
 
 func decodeEq(v *vg.V) (eq bool, ok bool) {
@@ -650,7 +664,7 @@ func main() {
 	env, rep := vh.Parse("C20")
 	rng := vh.NewRng(env.Seed)
 	rep.Rule = "a case is one ordered pair (a,b) inside a pool of 4-8 related values (same type / mixed types / mutants of one tree: " +
-		"reordered or replaced map keys, changed leaves, nil vs empty payloads, NaNs / a value and its decoding / one value of every type built from the same content (all ordered type pairs) / payloads that are windows of one shared backing array with their independent copies / containers built through mutation histories next to plainly built twins / chains of neighbouring representable numbers and offsets around 1e-6 for every numeric type, bare and inside arrays, lists and maps); laws are evaluated on all pairs and triples of a pool; " +
+		"reordered or replaced map keys, changed leaves, nil vs empty payloads, NaNs / a value and its decoding / one value of every type built from the same content (all ordered type pairs) / payloads that are windows of one shared backing array with their independent copies / containers built through mutation histories next to plainly built twins / containers of 1..1000 minimal-size elements (null, empty text / blob / array, decimal 0) alone, nested and as the last field, decoded from an exact-size buffer / chains of neighbouring representable numbers and offsets around 1e-6 for every numeric type, bare and inside arrays, lists and maps); laws are evaluated on all pairs and triples of a pool; " +
 		"non-trivial = a and b are not both null; distinct by the two one-line forms"
 
 	var pools []pool
@@ -758,6 +772,7 @@ func main() {
 		pools = append(pools, aliasPools(rng.Fork(), env.Thorough)...)
 		pools = append(pools, historyPools(rng.Fork(), env.Thorough)...)
 		pools = append(pools, nearPools(rng.Fork(), env.Thorough)...)
+		pools = append(pools, minimalPools()...)
 	}
 
 	// ---- model
@@ -932,7 +947,7 @@ func main() {
 				bad := a
 				a.Walk(func(s *vg.V) {
 					if s.Nodes() <= bad.Nodes() {
-						if e, ok := decodeEq(s); ok && !e {
+						if e, ok := decodeEq(s); !ok || !e {
 							bad = s
 						}
 					}
@@ -1002,7 +1017,10 @@ func main() {
 					lawFail("eq-decode", []int{i}, true, "a value is not equal to the result of decoding its encoding")
 				}
 			} else if !okd {
+				// encoding a value and decoding it again must not fail at all
 				rep.Count("decode-law:panic")
+				lawDiffers = true
+				lawFail("eq-decode", []int{i}, true, "encoding the value and decoding it again (exact-size buffer, nothing behind it) panics")
 			}
 			for j := 0; j < n; j++ {
 				if !ok(i, j) || !ok(j, i) {
